@@ -10,7 +10,7 @@ from checks import common as cm
 from checks import c01
 
 ID = 'C02'
-BUDGET = {'quick': 5000, 'thorough': 300000}
+BUDGET = {'quick': 20000, 'thorough': 1000000}
 WALL = {'quick': 100, 'thorough': 1500}
 CHUNK = 60
 RULE = ('case 0 = complete sweep of Layout for all extents n in 1..40 and process counts p in 1..n '
